@@ -48,6 +48,9 @@ def qvec(planes):
 
 def run(ctx):
     prog = ctx.program
+    # constructor clause: the configuration reaches the methods unchanged (the rule builds its objects from attribute values)
+    from .common import check_ctor_verbatim
+    check_ctor_verbatim(ctx, "solver", "QGMRESSolver", "C04.D0.config")
     c_g = prog.cls("solver", "QGMRESSolver")
     f_solve = prog.func("solver", "QGMRESSolver.solve")
     f_core = prog.func("solver", "QGMRESSolver._GMRESQsparse")
